@@ -1,0 +1,61 @@
+//! Verification hooks. Compiled only with `--cfg blsful_verif`; nothing here exists in a
+//! normal build.
+//!
+//! * `SystemTime`: a stand-in for `std::time::SystemTime` whose `now()` can be pinned to a
+//!   virtual instant per thread, so a harness can visit exact delays without sleeping.
+//! * `rng_observer`: reports a fingerprint of every generator `get_crypto_rng` hands out.
+use std::cell::Cell;
+use std::sync::atomic::{AtomicBool, Ordering};
+use std::sync::Mutex;
+use std::time::{Duration, UNIX_EPOCH};
+
+thread_local! {
+    static VIRTUAL_NOW_MS: Cell<Option<u64>> = const { Cell::new(None) };
+}
+
+/// Pin (Some) or release (None) the current thread's clock, in milliseconds since the epoch.
+pub fn set_virtual_now_ms(ms: Option<u64>) {
+    VIRTUAL_NOW_MS.with(|c| c.set(ms));
+}
+
+/// Drop-in for `std::time::SystemTime` inside the instrumented functions.
+pub struct SystemTime;
+
+impl SystemTime {
+    /// The pinned instant of this thread, or the real time when none is pinned.
+    pub fn now() -> std::time::SystemTime {
+        match VIRTUAL_NOW_MS.with(|c| c.get()) {
+            Some(ms) => UNIX_EPOCH + Duration::from_millis(ms),
+            None => std::time::SystemTime::now(),
+        }
+    }
+}
+
+static RNG_OBSERVE: AtomicBool = AtomicBool::new(false);
+static RNG_LOG: Mutex<Vec<(u64, [u8; 16])>> = Mutex::new(Vec::new());
+
+/// Start (true) or stop (false) recording generator fingerprints.
+pub fn rng_observe(on: bool) {
+    RNG_OBSERVE.store(on, Ordering::SeqCst);
+}
+
+/// Take the fingerprints recorded so far: (thread tag, first 16 output bytes of a clone).
+pub fn rng_take() -> Vec<(u64, [u8; 16])> {
+    std::mem::take(&mut *RNG_LOG.lock().unwrap())
+}
+
+/// Called by `get_crypto_rng` with a clone of the generator it is about to return.
+pub fn rng_created(mut clone: rand_chacha::ChaCha20Rng) {
+    if RNG_OBSERVE.load(Ordering::SeqCst) {
+        use rand_core::RngCore;
+        let mut fp = [0u8; 16];
+        clone.fill_bytes(&mut fp);
+        let tid = {
+            use std::hash::{Hash, Hasher};
+            let mut h = std::collections::hash_map::DefaultHasher::new();
+            std::thread::current().id().hash(&mut h);
+            h.finish()
+        };
+        RNG_LOG.lock().unwrap().push((tid, fp));
+    }
+}
